@@ -5,6 +5,7 @@ import json
 import os
 import sys
 import time
+import zlib
 
 from . import evidence as EV
 from . import findings as KF
@@ -44,9 +45,16 @@ def run_generated(configs, judge, params, seeds=(0,), mode='rr', batch=100, resu
             continue
         farm = Farm(judge, dict(params, **c.get('params', {})), seeds=seeds, mode=mode)
 
-        def consumer(fh, farm=farm):
-            for b in split_states(fh, batch):
-                farm.submit(b)
+        k = int(c.get('sample', 1))
+
+        def consumer(fh, farm=farm, k=k):
+            # sample = k: TLC explores (and checks the model-level theorems on) every state; a deterministic
+            # 1-in-k selection of the states (by a hash of the state text) is replayed against the code
+            for b in split_states(fh, batch * k):
+                if k > 1:
+                    b = [raw for raw in b if zlib.crc32(raw.encode('utf-8', 'surrogateescape')) % k == 0]
+                if b:
+                    farm.submit(b)
         t0 = time.time()
         try:
             r = run_tlc(c['module'], c['cfg'], runcfg_module(c['defs'], extends=['Integers']),
@@ -60,7 +68,8 @@ def run_generated(configs, judge, params, seeds=(0,), mode='rr', batch=100, resu
         res.transitions += r['generated']
         res.runs.append({'name': c['name'], 'module': c['module'], 'distinct': r['distinct'],
                          'generated': r['generated'], 'tlc_wall_s': round(r['wall_s'], 1),
-                         'wall_s': round(time.time() - t0, 1), 'invariants': c.get('invariants', [])})
+                         'wall_s': round(time.time() - t0, 1), 'invariants': c.get('invariants', []),
+                         'replayed': 'every state' if k == 1 else 'a deterministic 1-in-%d selection of the states' % k})
         if r['violated']:
             res.model_violations.append((c['name'], r['violated'], r['out'][-3000:]))
     return res
